@@ -1851,8 +1851,12 @@ def subset_features(self, feature_indices, keepEmptyDefaultLangSys=False):
         and not keepEmptyDefaultLangSys
     ):
         self.DefaultLangSys = None
+    # An emptied LangSys is kept while the default one applies features:
+    # without its record the language would fall back to the default.
     self.LangSysRecord = [
-        l for l in self.LangSysRecord if l.LangSys.subset_features(feature_indices)
+        l
+        for l in self.LangSysRecord
+        if l.LangSys.subset_features(feature_indices) or self.DefaultLangSys
     ]
     self.LangSysCount = len(self.LangSysRecord)
     return bool(self.LangSysCount or self.DefaultLangSys)
@@ -1866,8 +1870,12 @@ def prune_features(self, feature_index_map, keepEmptyDefaultLangSys=False):
         and not keepEmptyDefaultLangSys
     ):
         self.DefaultLangSys = None
+    # An emptied LangSys is kept while the default one applies features:
+    # without its record the language would fall back to the default.
     self.LangSysRecord = [
-        l for l in self.LangSysRecord if l.LangSys.prune_features(feature_index_map)
+        l
+        for l in self.LangSysRecord
+        if l.LangSys.prune_features(feature_index_map) or self.DefaultLangSys
     ]
     self.LangSysCount = len(self.LangSysRecord)
     return bool(self.LangSysCount or self.DefaultLangSys)
